@@ -87,3 +87,42 @@ Proof.
   split; [repeat constructor; simpl; intuition congruence|]. split; [|reflexivity].
   repeat constructor; simpl; intuition congruence.
 Qed.
+
+(* ------------------------------------------------------------------ *)
+From HG Require Import Engine Exec EngineProofs C01Proofs Alpha AlphaExample Samples.
+From stdpp Require Import gmap.
+
+(* WHOLE GRAPHS.  Renaming the value names of a graph consistently through an injective map sigma (every producer's output,
+   every consumer's input, wait_for, defaults, bindings, run-time inputs: what with_inputs / with_outputs on every node
+   concerned amounts to), with executors that differ only by the names of their argument and result dictionaries (which is what
+   C06_call / C06_defaults_follow establish for the wrapped callables): the solutions of the dataflow equations of the renamed
+   graph are the renamed solutions ... *)
+Theorem C06_alpha_equations : forall (sigma : name -> name), Inj (=) (=) sigma ->
+  forall g pv V exec exec',
+  (forall n s ins, In n (g_nodes g) -> exec' (rename_node sigma n) s (rename_dict sigma ins) = rename_out sigma (exec n s ins)) ->
+  Sol exec g pv V -> Sol exec' (rename_graph sigma g) (rename_dict sigma pv) (kmap sigma V).
+Proof. intros sigma Hinj g pv V exec exec' H. exact (sol_rename sigma g pv V exec exec' H). Qed.
+Print Assumptions C06_alpha_equations.
+
+(* ... hence a completed run of the renamed graph returns the values of the original run under the new names (either runner,
+   any budget, any node order): nothing that is computed changes. *)
+Theorem C06_alpha_runs : forall (sigma : name -> name), Inj (=) (=) sigma ->
+  forall g pv exec exec',
+  (forall n s ins, In n (g_nodes g) -> exec' (rename_node sigma n) s (rename_dict sigma ins) = rename_out sigma (exec n s ins)) ->
+  WF exec g pv -> WF exec' (rename_graph sigma g) (rename_dict sigma pv) ->
+  List.NoDup (dkeys pv) -> List.NoDup (dkeys (rename_dict sigma pv)) ->
+  forall r1 r2 f1 f2 s s' l l',
+  execute exec r1 f1 g pv = (RDone s, l) ->
+  execute exec' r2 f2 (rename_graph sigma g) (rename_dict sigma pv) = (RDone s', l') ->
+  vals s' = kmap sigma (vals s).
+Proof. intros sigma Hinj. exact (@alpha_runs sigma Hinj). Qed.
+Print Assumptions C06_alpha_runs.
+
+(* non-vacuity: every hypothesis holds of the diamond DAG with all value names shifted by one (AlphaExample.v) *)
+Theorem C06_alpha_example : forall r1 r2 f1 f2 s s' l l',
+  execute (exec_basic dag_ft []) r1 f1 dag ex_pv0 = (RDone s, l) ->
+  execute ex_exec' r2 f2 ex_dag' ex_pv' = (RDone s', l') ->
+  vals s' = kmap Pos.succ (vals s).
+Proof. exact ex_alpha_runs. Qed.
+Print Assumptions C06_alpha_example.
+
